@@ -309,13 +309,16 @@ def build(tier="quick", seed=0):
                             replay=lambda w, expr=expr, want=want: {"call": "c07_grouped", "args": {"expr": expr, "want": want}}, functions=FU, mode="helper functions over one grouped record"))
 
     # typed field matchers look into nested records (record / record[] fields) for every operator, membership included
-    for expr, want in (('Type.string in ["x"]', True), ('Type.string in ["z", "q"]', True), ('Type.string not in ["x"]', False), ('Type.string in ["nowhere"]', False), ('Type.string == "x"', True), ('"z" in [Type.string]', True)):
+    for expr, want in (('Type.string in ["x"]', True), ('Type.string in ["z", "q"]', True), ('Type.string not in ["x"]', False), ('Type.string in ["nowhere"]', False), ('Type.string == "x"', True), ('"z" in [Type.string]', True),
+                       ('Type.string == "needle"', True), ('"needle" in Type.string', True), ('Type.string in ["needle2"]', True), ('Type.string == "needle3"', True), ('Type.string == "nowhere"', False), ('Type.varint >= 7', True), ('Type.varint > 7', False)):
         name = f"C07.nested[{expr}]"
 
         def th_nested(expr=expr):
             A = it.call(RD, ["c07/na", [("string", "s")]], {})
-            B = it.call(RD, ["c07/nb", [("string", "t"), ("record", "sub"), ("record[]", "subs")]], {})
-            b = it.call(B, [], {"t": "y", "sub": it.call(A, [], {"s": "x"}), "subs": [it.call(A, [], {"s": "z"})]})
+            M = it.call(RD, ["c07/nm", [("record", "inner"), ("record[]", "inners"), ("varint", "k")]], {})  # values two and three levels down
+            B = it.call(RD, ["c07/nb", [("string", "t"), ("record", "sub"), ("record[]", "subs"), ("record", "deep")]], {})
+            deep = it.call(M, [], {"inner": it.call(A, [], {"s": "needle"}), "inners": [it.call(M, [], {"inner": it.call(A, [], {"s": "needle3"}), "inners": [], "k": 7})], "k": 1})
+            b = it.call(B, [], {"t": "y", "sub": it.call(A, [], {"s": "x"}), "subs": [it.call(A, [], {"s": "z"}), it.call(M, [], {"inner": it.call(A, [], {"s": "needle2"}), "inners": [], "k": 2})], "deep": deep})
             out = []
             for cls in ("Selector", "CompiledSelector"):
                 try:
@@ -324,7 +327,7 @@ def build(tier="quick", seed=0):
                     out.append("raise " + e.cls_name)
             return out
 
-        pack.add(Obligation(name, lambda tier, name=name, th_nested=th_nested, want=want, expr=expr: prove_paths(name, th_nested, lambda p, want=want: (p.value == [want, want], f"{expr!r} on a record holding nested records (t='y', sub.s='x', subs[0].s='z'): interpreted / compiled give {p.value}, the documented answer is {want}")),
+        pack.add(Obligation(name, lambda tier, name=name, th_nested=th_nested, want=want, expr=expr: prove_paths(name, th_nested, lambda p, want=want: (p.value == [want, want], f"{expr!r} on a record holding nested records (t='y', sub.s='x', subs[0].s='z', deep.inner.s='needle', subs[1].inner.s='needle2', deep.inners[0].inner.s='needle3', deep.inners[0].k=7): interpreted / compiled give {p.value}, the documented answer is {want}")),
                             replay=lambda w, expr=expr, want=want: {"call": "c07_nested", "args": {"expr": expr, "want": want}}, functions=FU, mode="typed matchers over one record with nested records"))
 
     # outside the language: rejected with an error, never evaluated to a value (interpreted engine)
